@@ -39,6 +39,7 @@ class ProgGen:
         self.env = {}        # var -> current hi bound (locals assigned so far, state)
         self.nloc = 0
         self.ternaries = True
+        self.in_call = False
         self.guards = True
 
     # ---------------------------------------------------------------- expressions
@@ -69,7 +70,7 @@ class ProgGen:
             return self.leaf()
         a = self.expr(depth + 1)
         b = self.expr(depth + 1)
-        if self.ternaries and rng.random() < 0.12:
+        if self.ternaries and not self.in_call and rng.random() < 0.15:
             c = self.cond(2)
             return E('(%s if %s else %s)' % (a.src, c, b.src), min(a.lo, b.lo), max(a.hi, b.hi), a.wide and b.wide)
         for _ in range(6):
@@ -176,7 +177,10 @@ class ProgGen:
                 return lines
         if r < 0.55 and self.outs:
             n, w = rng.choice(self.outs)
+            # the transpiler refuses an if-expression inside a call: keep them (mostly) out of prepare()/put() arguments
+            self.in_call = rng.random() < 0.9
             e = self.expr()
+            self.in_call = False
             return [pad + 'self.%s.%s(%s)' % (n, 'prepare' if self.seq else 'put', e.src)]
         if r < 0.8 and self.state and self.seq:
             n, init, bound = rng.choice(self.state)
